@@ -406,6 +406,11 @@ def corpus():
             branch={"local": {"tip": 4, "tags": {}, "bloc": bloc, "push": 1, "parent": 2}},
             tree={"merges": [], "changes": []},
             others=({"tip": 4, "tags": {}, "own": g0}, {"tip": 4, "tags": {}, "own": g0}, {"tip": 4, "tags": {}, "own": g0}))})
+    # W11 (finding): to_standalone of a lightweight checkout whose branch lives INSIDE it and uses the outer shared
+    # repository: the new (empty, unshared) repository cuts that branch off from its repository
+    out.append({"kind": "reconf", "target": "standalone", "nb": None, "force": False, "world": _w(
+        outer={"trees": False, "revs": [0, 1, 2, 3]}, branch={"ref": 0}, tree={"merges": [], "changes": [1]},
+        others=({"tip": 3, "tags": {"1": 0}, "own": None}, None, None))})
     # upgrade witnesses (findings): colo target on an old directory; lowering the tree format
     out.append({"kind": "upgrade", "src": "1.14-rich-root", "dst": "development-colo", "layout": "tree", "clean_up": False,
                 "nrev": 2, "tags": {}, "changes": [], "merge": False, "locs": [None, None, None]})
@@ -1348,6 +1353,9 @@ def finding_matches(fid, inp, obs, why):
         if fid == "C52-repository-destroyed-without-fetch":
             return (why.startswith("revision-lost:") and inp["target"] in ("use-shared", "lightweight")
                     and w["repo"] is not None and not (w["branch"] and "local" in w["branch"]))
+        if fid == "C52-standalone-shadows-outer-repository":
+            return (why.startswith("branch-lost:") and inp["target"] == "standalone" and w["repo"] is None
+                    and w["outer"] is not None and w["branch"] == {"ref": 0} and w["others"][0]["own"] is None)
         if fid == "C52-late-bind-refusal":
             return (why.startswith("refusal-changed-state:") and inp["target"] == "checkout"
                     and ("NoBindLocation" in why or "NotBranchError" in why))
